@@ -136,7 +136,7 @@ class History:
         rng = self.rng
         ctx = self.ctx
         op = str(rng.choice(['orth', 'compress', 'addsub', 'apply', 'splitmerge', 'tdvp1', 'tdvp2', 'dmrg1', 'dmrg2', 'new', 'zeroq', 'mpo-arith', 'mpo-orth', 'mpo-new'],
-                            p=[.10, .10, .10, .08, .08, .07, .07, .06, .06, .06, .04, .10, .03, .05]))
+                            p=[.10, .10, .09, .08, .08, .06, .06, .06, .06, .06, .04, .09, .06, .06]))
         detail = {'history': self.hist + [op], 'model': self.name, 'L': self.L}
         if op == 'orth':
             o = self.pick('mps')
@@ -278,13 +278,21 @@ class History:
                 ctx.close('step.orthonormalize-factor', abs(float(nrm) - np.linalg.norm(o.shadow)), 1e-9 * max(1, np.linalg.norm(o.shadow)), 'MPO factor != Frobenius norm', detail)
                 o.shadow = o.shadow / float(nrm) if nz and nrm > 0 else refs.dense_operator(o.obj.A)
         elif op == 'mpo-new':
-            which = str(rng.choice(['model', 'identity', 'opgraph', 'fill', 'charged-boundary']))
+            which = str(rng.choice(['model', 'identity', 'opgraph', 'fill', 'charged-boundary', 'charge-diagonal', 'charge-diagonal']))
             if which == 'model' or (which == 'opgraph' and self.name != 'xxz'):
                 r = gen.model(self.name, self.L, gen.generic_params(rng))
                 herm = True
             elif which == 'identity':
                 r = ptn.MPO.identity(self.qd, self.L, dtype=complex if rng.random() < 0.5 else float)
                 herm = True
+            elif which == 'charge-diagonal':
+                # ALL bond labels zero although the physical labels are not (a charge-diagonal operator such as an interaction-only Hamiltonian):
+                # over-dimensioned bonds, so that a later orthonormalisation really has something to reduce
+                if not np.any(self.qd):
+                    return False
+                r = ptn.MPO(self.qd, [np.zeros(1, dtype=int)] + [np.zeros(int(rng.integers(2, 6)), dtype=int) for _ in range(self.L - 1)] + [np.zeros(1, dtype=int)],
+                            fill='random', rng=np.random.default_rng(int(rng.integers(0, 2 ** 31))))
+                herm = False
             elif which == 'charged-boundary':
                 # operator with NON-ZERO quantum numbers on its dummy boundary bonds (like linear_fermionic_mpo), charge changing
                 diffs = np.unique(np.subtract.outer(self.qd, self.qd))
